@@ -92,6 +92,8 @@ def gen_ops(rng, gd, orbit, ecc, inv_ok, ic):
     ops = []
     # limits a session comes back to (a cache is only interesting when the same key is asked for again)
     favourite = {} if rng.random() < 0.4 else {"max_diameter": rng.choice([1, 2, ecc, ecc + 2])}
+    if rng.random() < 0.4:
+        favourite["max_layer_size_to_explore"] = rng.choice([10**6, 10**5, 10**4 + 1])
     if inv_ok and rng.random() < 0.35:
         # cache stress: the same limits asked for twice with other work on the same object in between
         kw = dict(favourite)
@@ -120,6 +122,8 @@ def gen_ops(rng, gd, orbit, ecc, inv_ok, ic):
             kw = dict(favourite)
             if rng.random() < 0.4:
                 kw = {"max_diameter": rng.choice([1, 2, ecc, ecc + 2])} if rng.random() < 0.7 else {}
+                if rng.random() < 0.4:
+                    kw["max_layer_size_to_explore"] = rng.choice([10**6, 10**5, 10**4 + 1])
             ops.append(["find_path", s, kw])
         elif k < 0.64:
             ops.append(["beam", s, rng.choice([1, 3, 10**6]), rng.choice([2, 3 * ecc + 2]), rng.choice(["simple", "advanced"])])
